@@ -7,7 +7,7 @@
 #  3. every seeded fault under /verif/seeded/*/ (patch.diff + meta.json): golib's own suite must
 #     still pass with the patch, and every check listed in meta.json "caught_by" must exit 1
 #     with a VIOLATION line, twice. Results are written to /verif/seeded/RESULTS.md.
-# Usage: selftest.sh [rewrite|shims|seeded [name...]]
+# Usage: selftest.sh [rewrite|shims|mutants|seeded [name...]]
 set -u
 VERIF=/verif
 export GOFLAGS=-mod=mod GOPROXY=off GOSUMDB=off GOTOOLCHAIN=local GOCACHE=${VERIF_GOCACHE:-/verif/.cache/go-build}
@@ -47,6 +47,13 @@ if [ "$what" = all ] || [ "$what" = seeded ]; then
         echo "SEEDED-MISSED $n by $id (exit $code)"; rc=1
       fi
     done
+  done
+fi
+if [ "$what" = all ] || [ "$what" = mutants ]; then
+  grep -v '^#' $VERIF/mutants/EXPECT | while read patch id want own; do
+    [ -z "$patch" ] && continue
+    out=$($VERIF/mutant.sh $VERIF/mutants/$patch $id quick 2>&1); code=$?
+    if [ "$code" = "$want" ]; then echo "mutant $patch: $id exit $code as expected ($(echo "$out" | grep -m1 '^  violation' | cut -c1-140))"; else echo "MUTANT-UNEXPECTED $patch: $id exit $code, expected $want"; fi
   done
 fi
 exit $rc
